@@ -575,7 +575,10 @@ func (fc *FnCtx) evalCallWith(st *State, call *ast.CallExpr, preRecv *Val, preAr
 					_, wantPtr := rs.Type().Underlying().(*types.Pointer)
 					_, havePtr := r.Ty.Underlying().(*types.Pointer)
 					if wantPtr && !havePtr && !isInterface(rs.Type()) {
-						r = fc.addrOf(st, se.X)
+						// pure / quiet methods of an addressable value are functions of the value itself
+						if pc := fc.eng.contractFor(f, fc.pkg); pc == nil || !(pc.Pure || pc.Quiet) {
+							r = fc.addrOf(st, se.X)
+						}
 					} else if !wantPtr && havePtr && !isInterface(rs.Type()) {
 						fc.nilCheck(st, r, se.X)
 						r = fc.deref(st, r)
@@ -785,6 +788,7 @@ func (fc *FnCtx) evalBuiltin(st *State, call *ast.CallExpr, name string) []Val {
 			st.assume(g)
 			base := fc.alloc(st, "mk")
 			s := Val{fmt.Sprintf("(mk_Slice %s 0 %s %s)", base, n.T, c.T), t}
+			st.known["freshbase:"+s.T] = true
 			// zero-initialised backing array
 			k, ks := fc.elemsKey(u.Elem())
 			es := fc.smt.sortOf(u.Elem())
@@ -905,30 +909,43 @@ func (fc *FnCtx) evalAppend(st *State, call *ast.CallExpr) Val {
 	return cur
 }
 
-// appendOne: in place when capacity allows, otherwise reallocate (both outcomes as an ite-merged value)
+// appendOne: in place when capacity allows, otherwise reallocate. Modelled as ONE heap store at a base that is
+// either the old backing array or a fresh one (no ite between whole heaps).
 func (fc *FnCtx) appendOne(st *State, s Val, v Val, elem types.Type) Val {
 	k, ks := fc.elemsKey(elem)
 	es := fc.smt.sortOf(elem)
 	old := fc.comp(st, k, ks)
-	fits := "(< (s_len " + s.T + ") (s_cap " + s.T + "))"
-	// in place
-	inPlace := sto(old, "(s_base "+s.T+")", sto(sel(old, "(s_base "+s.T+")"), "(s_len "+s.T+")", v.T))
-	rIn := fmt.Sprintf("(mk_Slice (s_base %[1]s) (s_off %[1]s) (+ (s_len %[1]s) 1) (s_cap %[1]s))", s.T)
-	// reallocation
-	base := fc.alloc(st, "grow")
+	fresh := fc.alloc(st, "grow")
 	nc := fc.smt.fresh("newcap", "Int")
 	st.assume(fmt.Sprintf("(and (> %s (s_len %s)) (<= %s %s))", nc, s.T, nc, MaxAlloc))
-	row := fc.smt.fresh("growrow", "(Array Int "+es+")")
+	st.assumeOnce(fmt.Sprintf("(<= (+ (s_len %s) 1) %s)", s.T, MaxAlloc))
+	// copy of the old contents (reallocation case)
+	grow := fc.smt.fresh("growrow", "(Array Int "+es+")")
 	fc.smt.nfresh++
 	q := fmt.Sprintf("j!q%d", fc.smt.nfresh)
 	st.assume(fmt.Sprintf("(forall ((%[1]s Int)) (! (=> (and (<= 0 %[1]s) (< %[1]s (s_len %[2]s))) (= (select %[3]s %[1]s) (select (select %[4]s (s_base %[2]s)) %[1]s))) :pattern ((select %[3]s %[1]s))))",
-		q, s.T, row, old))
-	realloc := sto(old, base, sto(row, "(s_len "+s.T+")", v.T))
-	rRe := fmt.Sprintf("(mk_Slice %s 0 (+ (s_len %s) 1) %s)", base, s.T, nc)
-	g := fmt.Sprintf("(<= (+ (s_len %s) 1) %s)", s.T, MaxAlloc)
-	st.assumeOnce(g)
-	fc.setComp(st, k, ks, ite(fits, inPlace, realloc))
-	return Val{ite(fits, rIn, rRe), s.Ty}
+		q, s.T, grow, old))
+	nr := fc.smt.fresh("appended", "Slice")
+	if s.T == "(mk_Slice 0 0 0 0)" {
+		st.assume(eq(nr, fmt.Sprintf("(mk_Slice %s 0 1 %s)", fresh, nc)))
+		fc.setComp(st, k, ks, sto(old, fresh, sto(grow, "0", v.T)))
+		st.known["freshbase:"+nr] = true
+		st.assume("(> (s_base " + nr + ") top0)")
+		return Val{nr, s.Ty}
+	}
+	if st.known["freshbase:"+s.T] {
+		// the appended-to slice was allocated by this function: so is the result (redundant fact, helps the frame)
+		st.known["freshbase:"+nr] = true
+		st.assume("(> (s_base " + nr + ") top0)")
+	}
+	fits := "(< (s_len " + s.T + ") (s_cap " + s.T + "))"
+	nb := fc.smt.fresh("appbase", "Int")
+	st.assume(eq(nb, ite(fits, "(s_base "+s.T+")", fresh)))
+	row := fc.smt.fresh("approw", "(Array Int "+es+")")
+	st.assume(eq(row, sto(ite(fits, sel(old, "(s_base "+s.T+")"), grow), "(s_len "+s.T+")", v.T)))
+	st.assume(eq(nr, fmt.Sprintf("(mk_Slice %s 0 (+ (s_len %s) 1) %s)", nb, s.T, ite(fits, "(s_cap "+s.T+")", nc))))
+	fc.setComp(st, k, ks, sto(old, nb, row))
+	return Val{nr, s.Ty}
 }
 
 // ---------- function values ----------
@@ -1005,6 +1022,27 @@ func (fc *FnCtx) evalFuncValueCall(st *State, call *ast.CallExpr, preArgs []Val)
 				return fc.applyContractSig(st, call, key, sig, c, nil, args)
 			}
 		}
+	}
+	if sig, ok := fv.Ty.Underlying().(*types.Signature); ok && sig.Results().Len() > 0 && fc.pureFuncValue(call) {
+		args := preArgs
+		if args == nil {
+			args = fc.evalArgs(st, call, sig)
+		}
+		var ats []string
+		for _, a := range args {
+			ats = append(ats, a.T)
+		}
+		var out []Val
+		for i := 0; i < sig.Results().Len(); i++ {
+			t := "(" + fc.appFn(sig, i) + " " + fv.T + " " + strings.Join(ats, " ") + ")"
+			if len(ats) == 0 {
+				t = "(" + fc.appFn(sig, i) + " " + fv.T + ")"
+			}
+			v := Val{t, sig.Results().At(i).Type()}
+			fc.assumeTyped(st, v)
+			out = append(out, v)
+		}
+		return out
 	}
 	fc.warn("call of function value %s: heap havocked", exprText(call.Fun))
 	for _, a := range call.Args {
@@ -1245,24 +1283,12 @@ func (fc *FnCtx) applyContractSig(st *State, call *ast.CallExpr, fname string, s
 				rts = append(rts, sig.Results().At(i).Type())
 			}
 		}
+		if tr := fc.resultTypes(call); len(tr) == len(rts) {
+			rts = tr
+		}
 		var out []Val
 		for i, rt := range rts {
-			name := fmt.Sprintf("pure_%s_%d", sanitize(ct.Key), i)
-			var sorts, ats []string
-			if recv != nil {
-				sorts = append(sorts, fc.smt.sortOf(recv.Ty))
-				ats = append(ats, recv.T)
-			}
-			for _, a := range args {
-				sorts = append(sorts, fc.smt.sortOf(a.Ty))
-				ats = append(ats, a.T)
-			}
-			fc.smt.declare(name, fmt.Sprintf("(declare-fun %s (%s) %s)", name, strings.Join(sorts, " "), fc.smt.sortOf(rt)))
-			t := name
-			if len(ats) > 0 {
-				t = "(" + name + " " + strings.Join(ats, " ") + ")"
-			}
-			v := Val{t, rt}
+			v := fc.pureApp(ct, recv, args, rt, i)
 			fc.assumeTyped(st, v)
 			out = append(out, v)
 		}
@@ -1638,7 +1664,7 @@ func (fc *FnCtx) knownLibCall(st *State, call *ast.CallExpr, f *types.Func, recv
 // ---------- syntactic modification sets (for loops) ----------
 
 func (fc *FnCtx) modSetOf(n ast.Node) *modSet {
-	ms := &modSet{vars: map[types.Object]bool{}, comps: map[string][]ast.Expr{}}
+	ms := &modSet{vars: map[types.Object]bool{}, comps: map[string][]ast.Expr{}, fresh: map[string]bool{}}
 	fc.collectMods(n, ms, 0)
 	return ms
 }
@@ -1775,7 +1801,9 @@ func (fc *FnCtx) callMods(call *ast.CallExpr, ms *modSet, depth int) {
 		case "append":
 			if sl, ok := fc.typeOf(call.Args[0]).Underlying().(*types.Slice); ok {
 				k, _ := fc.elemsKey(sl.Elem())
-				fc.addComp(ms, k, nil)
+				// in place at the base of the appended-to slice, or at a fresh backing array
+				fc.addComp(ms, k, call.Args[0])
+				ms.fresh[k] = true
 			}
 		case "copy":
 			if sl, ok := fc.typeOf(call.Args[0]).Underlying().(*types.Slice); ok {
@@ -1865,7 +1893,7 @@ func (fc *FnCtx) callMods(call *ast.CallExpr, ms *modSet, depth int) {
 	if decl := fc.eng.declOf(f); decl != nil && decl.Body != nil && depth < 3 {
 		p := fc.eng.pkgs[f.Pkg().Path()]
 		child := &FnCtx{eng: fc.eng, pkg: p, fn: f, decl: decl, smt: fc.smt, parent: fc, info: p.TypesInfo, boxed: map[types.Object]bool{}}
-		sub := &modSet{vars: map[types.Object]bool{}, comps: map[string][]ast.Expr{}}
+		sub := &modSet{vars: map[types.Object]bool{}, comps: map[string][]ast.Expr{}, fresh: map[string]bool{}}
 		child.collectMods(decl.Body, sub, depth+1)
 		if sub.all {
 			ms.all = true
@@ -2101,4 +2129,143 @@ func (fc *FnCtx) checkCallPre(st *State, call *ast.CallExpr, f *types.Func, recv
 			fc.assertNamed(st, "emit", key+"."+clauseName(cl, i), v.T, "whenever "+key+" is called: "+cl.Text, call.Pos())
 		}
 	}
+}
+
+// appFn names the uninterpreted function "i-th result of applying function value f to args" for a signature.
+func (fc *FnCtx) appFn(sig *types.Signature, i int) string {
+	var sorts []string
+	sorts = append(sorts, "Int")
+	for j := 0; j < sig.Params().Len(); j++ {
+		sorts = append(sorts, fc.smt.sortOf(sig.Params().At(j).Type()))
+	}
+	rs := fc.smt.sortOf(sig.Results().At(i).Type())
+	name := fmt.Sprintf("app%d_%s", i, sanitize(strings.Join(sorts[1:], "_")+"__"+rs))
+	fc.smt.declare(name, fmt.Sprintf("(declare-fun %s (%s) %s)", name, strings.Join(sorts, " "), rs))
+	return name
+}
+
+// closureOrdinal finds which function literal (source order) of its enclosing declaration lit is
+func (fc *FnCtx) closureKey(lit *ast.FuncLit) string {
+	for f, d := range fc.pkg.decls {
+		if d.Body == nil || lit.Pos() < d.Body.Pos() || lit.End() > d.Body.End() {
+			continue
+		}
+		k, found := 0, 0
+		ast.Inspect(d.Body, func(x ast.Node) bool {
+			if l, ok := x.(*ast.FuncLit); ok {
+				k++
+				if l == lit {
+					found = k
+				}
+			}
+			return true
+		})
+		if found > 0 {
+			return fmt.Sprintf("%s$%d", funcKey(f, fc.pkg.Types), found)
+		}
+	}
+	return ""
+}
+
+// linkClosureContract: a function literal that has a (separately verified) contract Outer$N is a pure function of
+// its arguments and captured values: its ensures clauses, with results replaced by applications of the closure
+// value, are assumed for all arguments at the creation site.
+func (fc *FnCtx) linkClosureContract(st *State, lit *ast.FuncLit, cv Val) {
+	if fc.pkg.cf == nil {
+		return
+	}
+	key := fc.closureKey(lit)
+	ct := fc.pkg.cf.Contracts[key]
+	if ct == nil || len(ct.Ensures) == 0 {
+		return
+	}
+	sig, ok := fc.info.TypeOf(lit).(*types.Signature)
+	if !ok || sig.Results().Len() == 0 {
+		return
+	}
+	scope := map[string]Val{}
+	var binds []string
+	var args []string
+	for _, fl := range lit.Type.Params.List {
+		for _, n := range fl.Names {
+			obj := fc.info.Defs[n]
+			if obj == nil {
+				continue
+			}
+			fc.smt.nfresh++
+			q := fmt.Sprintf("%s!q%d", sanitize(n.Name), fc.smt.nfresh)
+			binds = append(binds, "("+q+" "+fc.smt.sortOf(obj.Type())+")")
+			args = append(args, q)
+			scope[n.Name] = Val{q, obj.Type()}
+		}
+	}
+	if len(args) != sig.Params().Len() {
+		return
+	}
+	var apps []string
+	for i := 0; i < sig.Results().Len(); i++ {
+		a := "(" + fc.appFn(sig, i) + " " + cv.T + " " + strings.Join(args, " ") + ")"
+		if len(args) == 0 {
+			a = "(" + fc.appFn(sig, i) + " " + cv.T + ")"
+		}
+		apps = append(apps, a)
+		rv := Val{a, sig.Results().At(i).Type()}
+		scope[fmt.Sprintf("result%d", i)] = rv
+		if i == 0 {
+			scope["result"] = rv
+		}
+		if n := sig.Results().At(i).Name(); n != "" && n != "_" {
+			scope[n] = rv
+		}
+	}
+	env := &SpecEnv{fc: fc, st: st, old: st, scope: scope, oldScope: scope, pkg: fc.pkg, useVars: true}
+	var body []string
+	for _, rq := range ct.Requires {
+		body = append(body, fc.safeSpec(env, rq.E, rq.Text).T)
+	}
+	pre := and(body...)
+	for _, en := range ct.Ensures {
+		t := fc.safeSpec(env, en.E, en.Text).T
+		f := imp(pre, t)
+		if len(binds) > 0 {
+			f = "(forall (" + strings.Join(binds, " ") + ") (! " + f + " :pattern (" + apps[0] + ")))"
+		}
+		st.assume(f)
+	}
+}
+
+// pureFuncValue: the contract declares the function-typed parameter/variable as pure (`pure f`): calling it has
+// no effect and its results are a function of the arguments.
+func (fc *FnCtx) pureFuncValue(call *ast.CallExpr) bool {
+	name := exprText(call.Fun)
+	for c := fc; c != nil; c = c.parent {
+		if c.ct != nil {
+			for _, p := range c.ct.PureFuncs {
+				if p == name {
+					return true
+				}
+			}
+		}
+	}
+	return false
+}
+
+// pureApp: the i-th result of an `extern pure` function as an uninterpreted function of receiver and arguments
+func (fc *FnCtx) pureApp(ct *Contract, recv *Val, args []Val, rt types.Type, i int) Val {
+	var sorts, ats []string
+	if recv != nil {
+		sorts = append(sorts, fc.smt.sortOf(recv.Ty))
+		ats = append(ats, recv.T)
+	}
+	for _, a := range args {
+		sorts = append(sorts, fc.smt.sortOf(a.Ty))
+		ats = append(ats, a.T)
+	}
+	name := fmt.Sprintf("pure_%s_%d_%s", sanitize(ct.Key), i, sanitize(strings.Join(sorts, "_")+"__"+fc.smt.sortOf(rt)))
+	fc.smt.declare(name, fmt.Sprintf("(declare-fun %s (%s) %s)", name, strings.Join(sorts, " "), fc.smt.sortOf(rt)))
+	t := name
+	if len(ats) > 0 {
+		t = "(" + name + " " + strings.Join(ats, " ") + ")"
+	}
+	return Val{t, rt}
 }
